@@ -697,7 +697,18 @@ class Inliner:
         if not isinstance(st, (ast.Assign, ast.AnnAssign, ast.Return)) or st.value is None:
             return None
         comps = [n for n in ast.walk(st.value) if isinstance(n, (ast.ListComp, ast.SetComp)) and len(n.generators) == 1 and not n.generators[0].ifs and not n.generators[0].is_async]
-        comps = [c for c in comps if isinstance(c.elt, ast.Call) and _resolve_helper(self.prog, f, c.elt, self.known) is not None]
+        def has_helper(elt: ast.AST) -> bool:
+            if isinstance(elt, ast.Call) and _resolve_helper(self.prog, f, elt, self.known) is not None:
+                return True
+            # the helper call as the index / an operand of an otherwise plain element expression: table[helper(e)]
+            inner = [x for x in ast.walk(elt) if isinstance(x, ast.Call) and _resolve_helper(self.prog, f, x, self.known) is not None]
+            if len(inner) != 1:
+                return False
+            inside = {id(y) for y in ast.walk(inner[0])}
+            return all(isinstance(x, (ast.Name, ast.Attribute, ast.Subscript, ast.Constant, ast.Tuple, ast.BinOp, ast.UnaryOp, ast.operator, ast.unaryop, ast.expr_context, ast.Slice))
+                       for x in ast.walk(elt) if id(x) not in inside)
+
+        comps = [c for c in comps if has_helper(c.elt)]
         if len(comps) != 1:
             return None
         c = comps[0]
@@ -1984,6 +1995,145 @@ class Inliner:
         walk(fn.body)
         return changed
 
+    def prune_constant_tests(self, f: FunctionInfo) -> bool:
+        """`if True: A else: B` / `A if False else B` left behind by a helper that was expanded with a literal flag: only the
+        branch that runs is kept (tests that are literal True / False / None only)."""
+        changed = False
+
+        def const(t):
+            if isinstance(t, ast.Constant) and (isinstance(t.value, bool) or t.value is None):
+                return bool(t.value)
+            if isinstance(t, ast.UnaryOp) and isinstance(t.op, ast.Not):
+                c_ = const(t.operand)
+                return None if c_ is None else not c_
+            return None
+
+        class T(ast.NodeTransformer):
+            def visit_FunctionDef(self, n):
+                if n is f.node:
+                    self.generic_visit(n)
+                return n
+
+            def visit_Lambda(self, n):
+                return n
+
+            def visit_IfExp(self, n):
+                nonlocal changed
+                self.generic_visit(n)
+                c_ = const(n.test)
+                if c_ is None:
+                    return n
+                changed = True
+                return n.body if c_ else n.orelse
+
+        def walk(stmts: List[ast.stmt]) -> None:
+            nonlocal changed
+            i = 0
+            while i < len(stmts):
+                st = stmts[i]
+                if isinstance(st, ast.If) and const(st.test) is not None:
+                    keep = st.body if const(st.test) else st.orelse
+                    stmts[i:i + 1] = keep if keep else [ast.copy_location(ast.Pass(), st)]
+                    changed = True
+                    continue
+                for fld in ("body", "orelse", "finalbody"):
+                    sub = getattr(st, fld, None)
+                    if isinstance(sub, list) and sub and isinstance(sub[0], ast.stmt) and not isinstance(st, (ast.FunctionDef, ast.AsyncFunctionDef, ast.ClassDef)):
+                        walk(sub)
+                for h in getattr(st, "handlers", []) or []:
+                    walk(h.body)
+                i += 1
+
+        T().visit(f.node)
+        walk(f.node.body)
+        if changed:
+            self.log.append(f"{f.qualname}: branches under a literal True / False test pruned")
+        return changed
+
+    def flatten_subcounters(self, f: FunctionInfo) -> bool:
+        """for ..:  inner = 0; .. inner += e ..; [a = inner; b = a;] outer += <inner>      (inner read nowhere else, outer not read inside the loop)
+        ->  for ..:  .. outer += e ..          - a per-iteration subtotal that is only added to the running total is the running total"""
+        fn = f.node
+        changed = False
+        loads: Dict[str, List[ast.Name]] = {}
+        stores: Dict[str, List[ast.AST]] = {}
+        parents: Dict[int, ast.AST] = {}
+        for p_ in ast.walk(fn):
+            for ch in ast.iter_child_nodes(p_):
+                parents[id(ch)] = p_
+        for n in _own_nodes(fn):
+            if isinstance(n, ast.Name):
+                (loads if isinstance(n.ctx, ast.Load) else stores).setdefault(n.id, []).append(n)
+        for lp in [n for n in _own_nodes(fn) if isinstance(n, ast.For)]:
+            body = lp.body
+            for i, st in enumerate(list(body)):
+                if not (isinstance(st, ast.Assign) and len(st.targets) == 1 and isinstance(st.targets[0], ast.Name) and isinstance(st.value, ast.Constant) and st.value.value == 0
+                        and not isinstance(st.value.value, bool)) or st not in body:
+                    continue
+                inner = st.targets[0].id
+                i = body.index(st)
+                # alias chain and the final `outer += alias`
+                aliases = [inner]
+                drop = [st]
+                final = None
+                for later in body[i + 1:]:
+                    if isinstance(later, ast.Assign) and len(later.targets) == 1 and isinstance(later.targets[0], ast.Name) and isinstance(later.value, ast.Name) and later.value.id == aliases[-1] \
+                            and len(loads.get(aliases[-1], [])) == 1 and len(stores.get(later.targets[0].id, [])) == 1:
+                        aliases.append(later.targets[0].id)
+                        drop.append(later)
+                    elif isinstance(later, ast.AugAssign) and isinstance(later.op, ast.Add) and isinstance(later.target, ast.Name) and isinstance(later.value, ast.Name) and later.value.id == aliases[-1] \
+                            and len(loads.get(aliases[-1], [])) == 1 and later.target.id not in aliases:
+                        final = later
+                        break
+                if final is None:
+                    continue
+                outer = final.target.id
+                inside = {id(x) for x in ast.walk(lp)}
+                if any(id(x) in inside for x in loads.get(outer, [])):
+                    continue  # the running total is read inside the loop
+                incs = []
+                ok = True
+                for sn in stores.get(inner, []):
+                    par = parents.get(id(sn))
+                    if par is st:
+                        continue
+                    if isinstance(par, ast.AugAssign) and isinstance(par.op, ast.Add) and par.target is sn and id(par) in inside:
+                        incs.append(par)
+                    else:
+                        ok = False
+                j = body.index(final)
+                between = {id(x) for b_ in body[i + 1:j] for x in ast.walk(b_)}
+                if not ok or not incs or not all(id(p_) in between for p_ in incs):
+                    continue
+
+                def leaves(stmts_, in_inner_loop=False) -> bool:
+                    # a return, or a break / continue of *this* loop, between the reset and the addition would drop the subtotal
+                    for b_ in stmts_:
+                        if isinstance(b_, ast.Return) or (isinstance(b_, (ast.Break, ast.Continue)) and not in_inner_loop):
+                            return True
+                        if isinstance(b_, (ast.FunctionDef, ast.AsyncFunctionDef, ast.ClassDef)):
+                            continue
+                        nested = in_inner_loop or isinstance(b_, (ast.For, ast.While))
+                        for fld in ("body", "orelse", "finalbody"):
+                            sub = getattr(b_, fld, None)
+                            if isinstance(sub, list) and sub and isinstance(sub[0], ast.stmt) and leaves(sub, nested if fld == "body" else in_inner_loop):
+                                return True
+                        for h_ in getattr(b_, "handlers", []) or []:
+                            if leaves(h_.body, in_inner_loop):
+                                return True
+                    return False
+
+                if leaves(body[i + 1:j]):
+                    continue
+                for inc in incs:
+                    inc.target = ast.copy_location(ast.Name(id=outer, ctx=ast.Store()), inc.target)
+                for d_ in drop + [final]:
+                    body.remove(d_)
+                changed = True
+                self.log.append(f"{f.qualname}: per-iteration subtotal `{inner}` that is only added to `{outer}` counted in `{outer}` directly")
+                return True  # names and positions changed: the caller runs the pass again
+        return changed
+
     def run(self) -> None:
         funcs = list(self.prog.all_functions(include_inlined=True))
         for f in funcs:
@@ -2012,6 +2162,8 @@ class Inliner:
                 changed |= self.consts_to_literals(f)
                 changed |= self.properties_to_exprs(f)
                 changed |= self.inline_raise_temps(f)
+                changed |= self.flatten_subcounters(f)
+                changed |= self.prune_constant_tests(f)
             if not changed:
                 break
         # helpers that are no longer called anywhere are accounted for in their callers
